@@ -30,8 +30,11 @@ def run(prop, tier, seed, replay=None):
         "mpz_probab_prime_p (n >= 2^16), Pollard rho and Lenstra ECM are oracles of the model: the theorems assume the stated contract "
         "(answers the primality question / returns a prime factor); every answer of the real code is certified per call by the verified checkers",
         "Lenstra's ECM arithmetic (Add_Curve, Mul_Curve, one_Mul_Curve) is an oracle too: executed and certified per call (divisor / failure value), never modelled; "
-        "Miller / Lehmann draw their base from GMP's global random state: certified one-sidedly (a prime must pass), the base is not observable; "
-        "Erathostene (sieve variant) and the text of write() are certified, not modelled (write's loop is compared with the model of set)",
+        "Miller / Lehmann / test_Lehmann are modelled as functions of the base they draw (Model/PrimesMR.lean, theorems for every base in Props/C12MR.lean); "
+        "the draw itself (mpz_urandomm on GMP's global state) is not modelled: the harness seeds the library generator and recomputes the base with a GMP state of its own; "
+        "Erathostene (sieve variant) is modelled with unbounded counters (Model/PrimesErat.lean; the C++ counters are int: the model is the code for n + 2*sqrt(n) < 2^31, "
+        "and a read of Ip beyond the array - which needs an interval (i, 2i) without unmarked odd number - is 'unmarked' in the model); "
+        "the text of write() is certified, not modelled (write's loop is compared with the model of set)",
         "Pollard() called directly on n with a prime factor below 100 can recurse without end (n = 4, 25: the rho iteration fails for every start): "
         "factor() never passes such n, the harness calls Pollard only on factor()'s domain",
         "the reference test above 2^20 is Miller-Rabin with the bases 2..37 (deterministic below 3.3e24; that fact is not proved in Lean); "
@@ -46,7 +49,8 @@ def run(prop, tier, seed, replay=None):
         changed = False
     if changed:
         V.note("prime tables re-extracted from %s (they differ from the committed extraction)" % common.REPO)
-    L = flow.lean_stage(V, ["GivaroModel.Props.C12"], "GivaroModel/Props/C12.lean")
+    L = flow.lean_stage(V, ["GivaroModel.Props.C12", "GivaroModel.Props.C12MR", "GivaroModel.Props.C12Erat", "GivaroModel.Props.C12Rho"], "GivaroModel/Props/C12.lean",
+                        extra_theorem_files=["GivaroModel/Props/C12MR.lean", "GivaroModel/Props/C12Erat.lean", "GivaroModel/Props/C12Rho.lean"])
     bins = flow.build_harnesses("h_primes", configs=("S",))
     lines = None
     if replay:
@@ -78,6 +82,10 @@ def run(prop, tier, seed, replay=None):
                             "with multiplicity, semiprimes, prime powers, negatives, each through set, set(Lf,n), factor, iffactorprime, primefactor, divisors and (sub-sampled) "
 "set with loops in {1,2,3,7,40,5000}, and (sub-sampled) with PRE-FILLED output containers (result for another m plus junk: divinto, setinto, "
                             "set1into, eratinto, writeinto; divisors also with the output list aliasing the factor list); isprimepower: every n in [-300, 70000) and p^e grids; "
+                            "Miller / test_Lehmann / Lehmann with the generator seeded and the base recomputed (millers, lehmanns): every n in [-3, 200) (thorough 600) with so many seeds that "
+                            "every base is drawn for n < 40, strong pseudoprimes / Carmichael numbers x 24 seeds, the 64-bit grid; Pollard seeded (pollards: start values recomputed, "
+                            "bounds {0,1,2,3,4,5,9,17,100,10^5}, every product of two primes of 101..199); factor / iffactorprime with explicit loops; the sieve on [-30, 6000) (thorough 30000) "
+                            "and on squares / cubes / products of primes up to 4*10^6, 2^k * odd; "
                             "distinct = distinct (operation, argument); non-trivial = argument outside {0,1}",
                        extra={"lines_per_operation": keys})
     V.finish()
